@@ -1876,7 +1876,46 @@ func runC12(run *Run, replay string) Spec {
 				fmt.Fprintf(os.Stderr, "slow scenario (%.1fs): %s\n", d.Seconds(), jsonStr(sc))
 			}
 		}
-		c12Judge(run, sc, res)
+		// A mismatch between the model's prediction and the observed trace counts only if the scenario reproduces it: the
+		// scenario ops are asynchronous in places (context cancellation, hook goroutines) and under load the implementation
+		// may legitimately take an order the model's trace did not. The model-independent oracles (overlap, writes after
+		// close, registry sizes, …) are not retried: whatever they see happened.
+		scratch := &Run{Prop: run.Prop, Tier: run.Tier, Seed: run.Seed, VerifDir: run.VerifDir, Pool: run.Pool, Known: run.Known,
+			distinct: map[string]struct{}{}, Hist: map[string]int{}, KnownHits: map[string]int{}, KnownPrinted: map[string]bool{}, Extra: map[string]any{}}
+		c12Judge(scratch, sc, res)
+		onlyCorrespondence := len(scratch.Violations) > 0
+		for _, v := range scratch.Violations {
+			if v.Kind != "correspondence" {
+				onlyCorrespondence = false
+			}
+		}
+		if onlyCorrespondence {
+			reproduced := 0
+			for attempt := 0; attempt < 2; attempt++ {
+				_, res2 := c12RunScenario(sc)
+				again := &Run{Prop: run.Prop, Tier: run.Tier, Seed: run.Seed, VerifDir: run.VerifDir, Pool: run.Pool, Known: run.Known,
+					distinct: map[string]struct{}{}, Hist: map[string]int{}, KnownHits: map[string]int{}, KnownPrinted: map[string]bool{}, Extra: map[string]any{}}
+				c12Judge(again, sc, res2)
+				if len(again.Violations) > 0 {
+					reproduced++
+				}
+			}
+			if reproduced == 0 {
+				run.Feat("correspondence_mismatch_not_reproduced")
+				scratch.Violations = nil
+			}
+		}
+		for _, v := range scratch.Violations {
+			run.Violate(v, "")
+		}
+		run.mu.Lock()
+		for k, n := range scratch.KnownHits {
+			run.KnownHits[k] += n
+		}
+		for k, n := range scratch.Hist {
+			run.Hist[k] += n
+		}
+		run.mu.Unlock()
 		races, delivered := 0, 0
 		for _, op := range sc.Ops {
 			if strings.HasPrefix(op.Kind, "race") {
